@@ -145,7 +145,7 @@ fn rand_cfg(rng: &mut Rng, dir: &Path) -> Cfg {
         let v = match rng.below(4) {
             0 => None,
             1 => Some((vec![], None)),
-            2 => Some((vec![], Some(rng.pick(&["1", "`A", "x y", "\"s\"", "`", "(", "`X(1)"]).to_string()))),
+            2 => Some((vec![], Some(rng.pick(&["1", "`A", "x y", "\"s\"", "`", "(", "`X(1)", "", "x", "é", "\"", "\"\"", " ", "\"é\"", "<f>", "f.svh"]).to_string()))),
             _ => Some((vec![("a".to_string(), None), ("b".to_string(), Some("2".to_string()))], Some("a + b".to_string()))),
         };
         defines.push((name, v));
